@@ -1,5 +1,5 @@
 """C29 no SQL input crashes or hangs the engine."""
-import hashlib, itertools, json, os, traceback
+import hashlib, itertools, json, os, re, traceback
 import multiprocessing as mp
 from vlib import sqldiff, driver as drv
 from .common import table
@@ -10,6 +10,15 @@ TOKENS = ['SELECT', '*', 'a', 't', 'FROM', 'WHERE', '(', ')', ',', '=', '1', 'NU
 BYTES = [b"'", b'"', b'\x00', b'\xff', b';', b'-', b'(', b'a', b'1', b' ', b'\n', b'\\']
 DB = {'tables': [table('t', [['a', 'int64'], ['s', 'utf8']], [[1, 'x'], [None, None], [2, 'y']]), table('u', [['a', 'int64'], ['b', 'float64']], [[1, ['f', '0.5']]])]}
 SLOW_MS = 30000
+# known finding deep_cte_chain_overflows_the_stack: only this statement shape, only at depth >= 500, only as a SIGABRT (Rust's stack-overflow handler)
+CTE_CHAIN = re.compile(r'^WITH c0 AS \(SELECT a FROM t\)((?:, c\d+ AS \(SELECT a FROM c\d+\))*) SELECT a FROM c(\d+)$')
+
+
+def known_deep_cte(sql, cls):
+    m = CTE_CHAIN.match(sql)
+    return bool(m) and int(m.group(2)) + 1 >= 500 and cls.startswith('DIED:DriverDied(-6)')
+
+
 KNOWN_HUGE = {'SELECT REPEAT(s, 1000000000) FROM t', 'SELECT LPAD(s, 2000000000, s) FROM t', 'SELECT SUBSTRING(s, -5, 100000000000) FROM t'}
 
 
@@ -39,6 +48,11 @@ def depth_families(N):
     for name, f in fam.items():
         for n in range(1, min(N, caps.get(name, N)) + 1):
             out.append((name, n, f(n)))
+    if N < 1000:
+        # sentinels beyond the quick bound, so the quick tier also exercises the deep-plan regime of every chain that reaches the planner
+        for name in ('CTE chain', 'AND chain', '+ chain', 'IN list', 'CASE arms'):
+            for n in (1000, 2000):
+                out.append((name, n, fam[name](n)))
     return out
 
 
@@ -67,7 +81,7 @@ def mistyped():
 
 def _work(args):
     fam, stmts, prop, encoded = args
-    out = {'evaluations': 0, 'counts': {}, 'violations': [], 'classes': set(), 'errors': [], 'samples': []}
+    out = {'evaluations': 0, 'counts': {}, 'violations': [], 'classes': set(), 'errors': [], 'samples': [], 'retime': []}
     try:
         d = sqldiff.get_driver({'name': 'default', 'env': {}})
 
@@ -105,7 +119,14 @@ def _work(args):
                 elif cls.startswith('DIED'):
                     bad = 'the engine process died or hung on this statement: ' + cls
                 elif ms > SLOW_MS:
-                    bad = 'took %d ms' % ms
+                    # wall time inside a 12-process pool on a shared machine is not evidence of a hang: re-timed alone by the parent once the pool is done
+                    out['retime'].append((fam, sql, ms))
+                    continue
+                if bad and known_deep_cte(sql, cls):
+                    out['known'] = out.get('known', {})
+                    out['known'].setdefault('deep_cte_chain_overflows_the_stack', {'sql': sql[:80] + ' ...', 'ctes': int(CTE_CHAIN.match(sql).group(2)) + 1, 'outcome': cls[:60]})
+                    out['counts']['known'] = out['counts'].get('known', 0) + 1
+                    continue
                 if bad and sql in KNOWN_HUGE:
                     out['known'] = out.get('known', {})
                     out['known'].setdefault('string_function_result_size_unbounded', {'sql': sql, 'outcome': bad[:160]})
@@ -159,11 +180,13 @@ def run(rep):
         for i in range(0, len(sqls), 100):
             tasks.append(('depth: ' + name, sqls[i:i + 100], rep.prop, False))
     rep.rule = ('(a) every token string of length <= %d over a %d-token SQL alphabet (%d statements); (b) every string of <= %d bytes over 12 hostile bytes, bare and after SELECT; (c) %d mistyped / '
-                'unsupported / boundary statements; (d) %d parametric depth families (nesting, chains, long literals, IN lists, CASE arms, joins, CTEs), every n in 1..%d; each executed against a '
-                'two-table catalog in the real engine (subprocess, default stacks); oracle: Ok or Err within %d ms, no panic, the process survives; distinct_nontrivial = distinct statements with a '
+                'unsupported / boundary statements; (d) %d parametric depth families (nesting, chains, long literals, IN lists, CASE arms, joins, CTEs), every n in 1..%d (quick: plus n = 1000 and 2000 for the five chains that reach the planner); each executed against a '
+                'two-table catalog in the real engine (subprocess, default stacks); oracle: Ok or Err within %d ms (a statement slower than that inside the 12-process pool is re-timed alone before it counts), no panic, the process survives; distinct_nontrivial = distinct statements with a '
                 'definite Ok/Err outcome' % (L, len(TOKENS), len(toks), 3 if quick else 4, len(mistyped()), len(byfam), N, SLOW_MS))
+    retime = []
     with mp.Pool(min(12, os.cpu_count() or 4), initializer=sqldiff._init) as pool:
         for out in pool.imap_unordered(_work, tasks):
+            retime += out['retime']
             rep.evaluations += out['evaluations']
             rep.merge_counts(out['counts'])
             rep.nontrivial |= out['classes']
@@ -178,6 +201,29 @@ def run(rep):
                     rep.known_hit(kid, ex)
                 else:
                     rep.violation({'property': rep.prop, 'kind': 'crash', 'why': 'unlisted finding ' + kid, 'example': ex})
+    # statements that were slow inside the pool, again, one at a time with nothing else of this check running
+    if retime:
+        d = drv.Driver()
+        try:
+            sqldiff.reg_db(d, DB)
+            for fam, sql, ms0 in retime:
+                try:
+                    cls, ms = d.call({'op': 'sql_many', 'db': 'd', 'sqls': [sql]}, timeout=SLOW_MS / 1000.0 + 30)['res'][0]
+                except (drv.DriverDied, drv.DriverTimeout) as e:
+                    cls, ms = 'DIED:%r' % (e,), -1
+                    d.close()
+                    d = drv.Driver()
+                    sqldiff.reg_db(d, DB)
+                bad = ms > SLOW_MS or cls.startswith(('DIED', 'PANIC'))
+                known = sql in KNOWN_HUGE
+                rep.merge_counts({'retimed alone': 1, ('known' if known else 'violation') if bad else 'retimed alone: within the limit': 1})
+                ex = {'sql': sql if len(sql) < 400 else sql[:200] + ' ...[%d chars]... ' % len(sql) + sql[-100:], 'outcome': 'took %d ms in the pool, %s alone' % (ms0, cls[:40] if ms < 0 else '%d ms' % ms)}
+                if bad and known:
+                    rep.known_hit('string_function_result_size_unbounded', ex)
+                elif bad:
+                    rep.violation({'property': rep.prop, 'kind': 'crash', 'family': fam, 'sql': ex['sql'], 'sql_len': len(sql), 'why': ex['outcome']})
+        finally:
+            d.close()
 
 
 def replay(payload):
